@@ -76,7 +76,8 @@ TDeal ==
              /\ resp' = [resp EXCEPT ![Me] = IF ret = "approve" THEN "app" ELSE "comp"]
              /\ truth' = [truth EXCEPT ![Me] = IF ret = "approve" THEN "app" ELSE "comp"]
              /\ thr' = S.thr
-             /\ cmtOK' = (k \notin {"badcommit", "nocommits", "otherpoly"})
+             /\ cmtOK' = (k \notin {"badcommit", "nocommits", "otherpoly"} /\ ~(k = "badsid" /\ ret = "approve"))
+                  \* (an implementation that approves a deal announcing a garbled id follows that id afterwards)
         ELSE /\ ret = "error"             \* a second deal answered otherwise is not followed (see notes)
              /\ UNCHANGED <<hasDeal, own, thr, cmtOK, resp, truth>>
      /\ bad' = BadNext(S) /\ UNCHANGED <<badTruth, tmo>>
